@@ -337,3 +337,98 @@ wf:
 """
 
 DATA_SHAPES = {'data_flow': DATA_FLOW, 'data_flow_3': DATA_FLOW_3}
+
+
+PAUSE_CMD_JOIN = """
+version: '2.0'
+wf:
+  tasks:
+    a:
+      action: std.noop
+      on-success: [pause, j]
+    b:
+      action: std.noop
+      on-success: j
+    j:
+      join: all
+      action: std.noop
+"""
+
+CHAIN = """
+version: '2.0'
+wf:
+  tasks:
+    a:
+      action: std.noop
+      on-success: b
+    b:
+      action: std.noop
+      on-success: c
+      on-error: d
+    c:
+      action: std.noop
+    d:
+      action: std.noop
+"""
+
+SKIP_ROUTES = """
+version: '2.0'
+wf:
+  output:
+    v: <% $.get(v, none) %>
+  tasks:
+    a:
+      action: std.noop
+      publish:
+        v: published
+      publish-on-skip:
+        v: skipped
+      on-success: b
+      on-skip: c
+      on-complete: d
+    b:
+      action: std.noop
+    c:
+      action: std.noop
+    d:
+      action: std.noop
+"""
+
+SKIP_NO_ONSKIP = """
+version: '2.0'
+wf:
+  tasks:
+    a:
+      action: std.noop
+      on-success: b
+      on-complete: d
+    b:
+      action: std.noop
+    d:
+      action: std.noop
+"""
+
+SUBWF = """
+version: '2.0'
+parent:
+  tasks:
+    p1:
+      workflow: child
+      on-success: p2
+      on-error: p3
+    p2:
+      action: std.noop
+    p3:
+      action: std.noop
+child:
+  output:
+    res: <% $.get(r, none) %>
+  tasks:
+    c1:
+      action: std.noop
+      publish:
+        r: from_child
+      on-success: c2
+    c2:
+      action: std.noop
+"""
